@@ -367,7 +367,7 @@ def space(tier: str) -> OneofSpace:
 
 def run(ctx: Ctx) -> None:
     sp = space(ctx.tier)
-    res = bfs(sp, max_states=400000)
+    res = bfs(sp, max_states=400000, is_known=ctx.is_known)
     t = res["tally"]
     for vj in t.violations:
         ctx.add(Violation.from_json(vj))
